@@ -31,8 +31,8 @@ MANIFEST = {
             "unbounded Int arithmetic with division truncating toward zero; TEXT (C08_text): the text of an operand — any sequence of terms "
             "(literals in four radixes, negative decimals, labels, parenthesised sequences nested to any depth) and operators with blanks "
             "anywhere the grammar allows — goes through the full pest interpreter over the regenerated grammar and the walk to exactly the "
-            "expression the climber builds, i.e. the stratified-grammar reading. Keccak is an executable Lean definition validated "
-            "against vectors, not proved against a standard.",
+            "expression the climber builds, i.e. the stratified-grammar reading. Keccak is an executable Lean definition; two published "
+            "vectors are evaluated in the kernel (C08_keccak_vectors); it is not proved against a standard.",
     "note": "Trusted: Lean kernel; Asm/Parse.lean (expression::parse, parse_radix_str, negative arm), Asm/Eval.lean tied to etk-asm by "
             "the differential run through push32 <expr>; the pest interpreter (Asm/Pest.lean) over the regenerated grammar supplies "
             "the token structure; num-bigint and sha3 are modelled, not verified.",
